@@ -23,4 +23,4 @@ For each change i = 1..{n} write into /tmp/mut/{pid}/_seeded/{pid}_<i>/ :
   patch.diff   — `git diff` of the change against the clean tree (make sure `git apply` works from the repository root),
   demo.py      — a small standalone program (run as: PYTHONPATH=<repo root> /venv/bin/python demo.py) that exits 0 on the clean tree and exits non-zero (assertion failure showing the property violated) with the patch applied,
   meta.json    — {{"property": "{pid}", "summary": "...", "needs": "what it takes to manifest", "tests_run": ["..."], "tests_passed": true}}.
-After writing each patch, restore the worktree to clean (`git checkout -- .`) and verify demo.py passes on the clean tree and fails with the patch re-applied. Leave the worktree clean at the end (the _seeded directory is untracked; that is fine). In your final message list the patches with one line each.""")
+After writing each patch, restore the worktree to clean (`git checkout -- .`) and verify demo.py passes on the clean tree and fails with the patch re-applied. NEVER use `git stash` (the stash is shared between worktrees and other people use it); to go back to a clean tree use `git diff > file` then `git checkout -- .`. Leave the worktree clean at the end (the _seeded directory is untracked; that is fine). In your final message list the patches with one line each.""")
